@@ -30,6 +30,9 @@ def hyb_order(name):
 
 @rule("R06.1", "C06", "hybrid order table: postfix ++/-- read-then-update; calls and statement-expressions execute-then-read; resolve_hybrid emits the pair in that order", min_instances=10)
 def r06_1(ctx):
+    from .c03 import postfix_node_typing
+
+    postfix_node_typing(ctx)  # the update is done in the variable's own width and the yielded old value has the variable's own type
     idx = get_index(ctx.env)
     ht = members_by_value(idx, "HybridType")
 
